@@ -102,6 +102,16 @@ pub fn vectors(max_len: usize) -> Vec<Value> {
         both_coders!(json!({"kind": "categorical", "probs": t, "lazy": false, "perfect": true}), msgs, perfect, |&s| s as usize);
         let lazy = DefaultLazyContiguousCategoricalEntropyModel::<f64, _>::from_floating_point_probabilities_fast(t.clone(), None).unwrap();
         both_coders!(json!({"kind": "categorical", "probs": t, "lazy": true, "perfect": false}), msgs, lazy, |&s| s as usize);
+        // arguments left to the binding's documented defaults: (lazy=False) -> fast; (perfect=False) -> fast;
+        // (perfect=True) -> perfect; (lazy=True) -> lazy; nothing -> perfect (backward-compatible default)
+        if t.len() == 3 {
+            let short: Vec<Vec<i32>> = msgs.iter().filter(|m| m.len() <= 2).cloned().collect();
+            both_coders!(json!({"kind": "categorical", "probs": t, "lazy": false, "perfect": false, "omit": ["perfect"]}), short, fast, |&s| s as usize);
+            both_coders!(json!({"kind": "categorical", "probs": t, "lazy": false, "perfect": false, "omit": ["lazy"]}), short, fast, |&s| s as usize);
+            both_coders!(json!({"kind": "categorical", "probs": t, "lazy": false, "perfect": true, "omit": ["lazy"]}), short, perfect, |&s| s as usize);
+            both_coders!(json!({"kind": "categorical", "probs": t, "lazy": true, "perfect": false, "omit": ["perfect"]}), short, lazy, |&s| s as usize);
+            both_coders!(json!({"kind": "categorical", "probs": t, "lazy": false, "perfect": true, "omit": ["lazy", "perfect"]}), short, perfect, |&s| s as usize);
+        }
         let t32: Vec<f32> = t.iter().map(|&x| x as f32).collect();
         let fast32 = DefaultContiguousCategoricalEntropyModel::from_floating_point_probabilities_fast(&t32, None).unwrap();
         let t32_as_f64: Vec<f64> = t32.iter().map(|&x| x as f64).collect();
